@@ -15,6 +15,10 @@
 //! that crashes (UB behind `unsafe`, abort) or does not return within 5 s is reported as the observed behaviour
 //! on the input the child was on (the generator is deterministic, the parent recomputes that input).
 //!
+//! Modules: t_gas (C13), t_gascalc (C14), t_blob (C32), t_i256 / t_instr (C03), t_precompile (C23 / C05: modexp, identity,
+//! padding, alt_bn128 framing, from_spec_id), t_journal (C06 / C07 / C08 / C34: operation sequences on a real JournaledState),
+//! t_memory (C11: SharedMemory sequences, resize_memory, MLOAD .. MCOPY), t_bytecode (C27), t_stack (C12).
+//!
 //! Adding a twin (builders): one `Case` per function in a `t_<unit>.rs` module, registered in `registry()`:
 //! `names` = last path segment of the Verus obligation (+ names of private helpers only reachable through it),
 //! `expected` = the postcondition of the contract store as executable code over big integers (NEVER a call of
@@ -30,6 +34,11 @@ mod t_gas;
 mod t_gascalc;
 mod t_i256;
 mod t_instr;
+mod t_journal;
+mod t_memory;
+mod t_stack;
+mod t_bytecode;
+mod t_precompile;
 
 use crate::core::*;
 
@@ -43,6 +52,11 @@ fn registry() -> Vec<Case> {
     v.extend(t_blob::cases());
     v.extend(t_i256::cases());
     v.extend(t_instr::cases());
+    v.extend(t_precompile::cases());
+    v.extend(t_journal::cases());
+    v.extend(t_memory::cases());
+    v.extend(t_bytecode::cases());
+    v.extend(t_stack::cases());
     v
 }
 
